@@ -711,7 +711,46 @@ def r10_9(ctx):
                         if isinstance(c, ast.Call) and (_is_release(c, kind) or _helper_must_release(cls, c, kind) or norm(c.func) == "self.stop"):
                             rel.add(nd.id)
             n += 1
-            w = g.must_pass(aid, rel, {g.rexit})
+            # edges that cannot be taken: a test of a boolean flag all of whose reaching definitions are the same constant
+            # (try: render(); flag = True  finally: if not flag: <undo>  - on the raising path the flag is still False)
+            rd9 = g.reaching_defs(weak=False)
+            dead = set()
+            for tn in g.nodes:
+                if tn.kind != "test" or tn.expr is None or tn.id not in g.reachable:
+                    continue
+                e9, neg = tn.expr, False
+                if isinstance(e9, ast.UnaryOp) and isinstance(e9.op, ast.Not):
+                    e9, neg = e9.operand, True
+                if not isinstance(e9, ast.Name):
+                    continue
+                ds = rd9.get(tn.id, {}).get(e9.id, set())
+                vals = set()
+                for d9 in ds:
+                    st9 = g.nodes[d9].stmt
+                    v9 = getattr(st9, "value", None)
+                    vals.add(v9.value if isinstance(v9, ast.Constant) and isinstance(v9.value, bool) else "?")
+                if len(vals) == 1 and "?" not in vals:
+                    truth = (not next(iter(vals))) if neg else next(iter(vals))
+                    taken = [b9 for b9 in g.succ[tn.id] if g.label.get((tn.id, b9)) is truth]
+                    if taken:
+                        for b9 in g.succ[tn.id]:
+                            if b9 not in taken:
+                                dead.add((tn.id, b9))  # the other branch (however its edge is labelled: False / 'exc' / None)
+            seen9, stack9, prev9 = {aid}, [aid], {}
+            w = None
+            while stack9:
+                a9 = stack9.pop()
+                for b9 in g.succ[a9]:
+                    if (a9, b9) in dead or b9 in rel or b9 in seen9:
+                        continue
+                    seen9.add(b9)
+                    prev9[b9] = a9
+                    stack9.append(b9)
+            if g.rexit in seen9:
+                w = [g.rexit]
+                while w[-1] in prev9:
+                    w.append(prev9[w[-1]])
+                w.reverse()
             ctx.check(w is None, start.fq, f"{desc} on the raising exit of start()", f"{m.relpath}:{g.nodes[aid].lineno}", f"{desc} (or stop()) is passed before an exception from the first refresh leaves start()",
                       f"start() renders (`{short(render_nodes[0].stmt)}`) after `{short(g.nodes[aid].stmt)}`; if the renderable raises there, start() is left without {desc}: `with {spec.split(':')[1]}(...)` propagates the exception out of __enter__, __exit__ never runs, and the terminal keeps a hidden cursor / redirected stdout / the render hook",
                       g.describe_path(w) if w else None)
